@@ -1197,6 +1197,46 @@ def np_gcd_reduce(ex, self, args, kw):
     return g
 
 
+@lib(NP, "squeeze")
+def np_squeeze(ex, args, kw):
+    """np.squeeze(a[, axis]): the axes of extent 1 (all of them, or the given one which must have extent 1) are dropped; for a
+    symbolic extent the path forks on `extent == 1`.  The result is a copy here (reads only), elements unchanged."""
+    a = as_ndarray(args[0])
+    ax = kw.get("axis", args[1] if len(args) > 1 else None)
+    nd = a.ndim
+    if ax is None:
+        drop = [d for d in range(nd) if ex.ctx.branch(to_z3(a.shape[d]) == 1) is True] if any(is_z3(x) for x in a.shape) \
+            else [d for d in range(nd) if a.shape[d] == 1]
+    else:
+        axes = [ax] if is_intlike(ax) else list(ax)
+        drop = []
+        for x in axes:
+            c = as_const(x) if is_z3(x) else x
+            if not isinstance(c, int):
+                raise Unsupported("np.squeeze with a symbolic axis")
+            if not -nd <= c < nd:
+                raise SymRaise("AxisError", "axis out of bounds")
+            d = c % nd
+            ex.ctx.check_or_raise(to_z3(a.shape[d]) == 1, "ValueError", "cannot select an axis to squeeze out which has size not equal to one")
+            drop.append(d)
+    keep = [d for d in range(nd) if d not in drop]
+    e, i = a.snapshot()
+
+    def full(idx):
+        out = [0] * nd
+        for j, d in enumerate(keep):
+            out[d] = idx[j]
+        return tuple(out)
+    if not keep:
+        return e(full(()))
+    return NDArray([a.shape[d] for d in keep], lambda idx: e(full(idx)), a.dtype, init=lambda idx: i(full(idx)))
+
+
+@method("NDArray", "squeeze")
+def nd_squeeze(ex, self, args, kw):
+    return np_squeeze(ex, [self] + list(args), kw)
+
+
 @lib(NP, "flip")
 def np_flip(ex, args, kw):
     v = args[0]
